@@ -22,6 +22,7 @@ META = {
 
 FINDINGS = {
     "C29-long-name-truncated": "NewFileWriterWithName accepts a swamp name longer than 65535 bytes; NameLength wraps, ReadSwampName returns \"\" and the explorer skips the file",
+    "C29-tui-truncates-large-realm": "the explorer TUI opens a realm with one ListSwamps(Limit 10000) call; the explorer clamps the limit to 1000 and the TUI does not page: swamps beyond the first 1000 of a realm are never shown",
     "C29-no-v2-fallback": "ReadSwampName does not fall back to the metadata entry for version-2 files",
     "C29-name-mismatch": "ReadSwampName returns a name other than the one the file was written under",
 }
@@ -64,7 +65,15 @@ def oracle(ops, impl):
                 raw = bytes.fromhex(got) if got and got != "-" else b""
                 expect.append(got if raw.count(b"/") >= 2 else None)
         elif f[0] == "scan" and listing_ok:
-            names = rep.split("names=")[-1]
+            names = rep.split("names=")[-1].split(" ")[0]
+            if names.startswith("digest:"):
+                import zlib
+                want = ",".join(sorted(set(x for x in expect if x), key=lambda h: bytes.fromhex(h)))
+                if names != "digest:%d:%08x" % (len(set(x for x in expect if x)), zlib.crc32(want.encode()) & 0xFFFFFFFF):
+                    bad.append((i, "explorer listing of a large directory differs from the files on disk (%s)" % names, None))
+                continue
+            if " paged=" in rep and (" paged=ok" not in rep or " detail=ok" not in rep):
+                bad.append((i, "the paginated / per-swamp queries of the explorer disagree with its own full listing: " + rep.split(" paged=")[1][:60], None))
             got = set() if names == "none" else set(names.split(","))
             want_set = set(x for x in expect if x)
             if got != want_set:
